@@ -65,11 +65,11 @@ def main():
             if os.path.exists(demo_diff):
                 rc, o = sh("git apply %s/demo/demo.diff" % rel, cwd=WT)
                 res["demo_applies"] = rc == 0
-            rc1, o1 = sh("sh %s/demo/run.sh" % rel, cwd=WT)
+            rc1, o1 = sh("bash %s/demo/run.sh" % rel, cwd=WT)
             res["demo_fails_with_patch"] = rc1 != 0
             res["demo_with_tail"] = o1.strip().split("\n")[-6:]
             sh("git apply -R %s/patch.diff" % rel, cwd=WT)
-            rc2, o2 = sh("sh %s/demo/run.sh" % rel, cwd=WT)
+            rc2, o2 = sh("bash %s/demo/run.sh" % rel, cwd=WT)
             res["demo_passes_without_patch"] = rc2 == 0
             if rc2 != 0:
                 res["demo_without_tail"] = o2.strip().split("\n")[-6:]
